@@ -100,7 +100,7 @@ fn cmd_hist(m: &HashMap<String, String>) -> i32 {
     let seed0: u64 = arg(m, "seed", 1);
     let runs: u64 = arg(m, "runs", 10);
     let per_file: u64 = arg(m, "per-file", 5);
-    let deadline = Duration::from_secs(arg(m, "deadline", 60));
+    let deadline = Duration::from_secs(arg(m, "deadline", 180));
     let replay_file = m.get("replay").cloned();
 
     let results: Arc<parking_lot::Mutex<Vec<serde_json::Value>>> =
@@ -342,7 +342,7 @@ fn cmd_fault(m: &HashMap<String, String>) -> i32 {
         let hi2 = Arc::clone(&hang_info);
         let out2 = out.clone();
         let wd = Watchdog::start(
-            Duration::from_secs(arg(m, "deadline", 60)),
+            Duration::from_secs(arg(m, "deadline", 180)),
             Box::new(move |what| {
                 let info = hi2.lock().clone();
                 let _ = std::fs::write(
